@@ -122,6 +122,7 @@ func genQty(t *rapid.T, label string, exactOnly bool) string {
 // BookOpts steers the recipe-book generator (swarm style: features are switched per case).
 type BookOpts struct {
 	MaxRecipes int
+	MinRecipes int // (books of 16 recipes and more: a resolver that splits its work only does so on those)
 	Cycles     bool
 	ExactOnly  bool
 	DeepChain  int  // if > 0, force a chain with this many references
@@ -134,11 +135,18 @@ type BookOpts struct {
 // order (so that, without Cycles, the book is acyclic) and then declared in a
 // drawn permutation: forward and backward references both occur.
 func genBook(t *rapid.T, o BookOpts) []Block {
-	n := rapid.IntRange(0, o.MaxRecipes).Draw(t, "n_recipes")
+	n := rapid.IntRange(o.MinRecipes, o.MaxRecipes).Draw(t, "n_recipes")
 	if o.DeepChain > 0 && n < o.DeepChain {
 		n = o.DeepChain
 	}
-	names := rapid.Permutation(recipePool).Draw(t, "recipe_names")
+	pool := recipePool
+	if o.MaxRecipes > len(recipePool) {
+		pool = append([]string{}, recipePool...)
+		for i := 0; len(pool) < o.MaxRecipes; i++ {
+			pool = append(pool, fmt.Sprintf("w/%02d", i))
+		}
+	}
+	names := rapid.Permutation(pool).Draw(t, "recipe_names")
 	if n > len(names) {
 		n = len(names)
 	}
